@@ -228,6 +228,49 @@ type Envelope struct {
 	Again   bool `json:"again,omitempty"`    // the constructed Query object is executed a second time
 	Respell bool `json:"respell,omitempty"`  // keywords in lower case, blanks between tokens turned into tabs / line feeds (outside quotes)
 	Side    Opts `json:"side,omitempty"`     // side-channel options (UnReportedErrors / CompletedCallback / WithVars / WithConstants)
+	// Poison: indexes into poisonSQL - statements that run (on a document of their own) right before the judged
+	// query; most of them fail part-way (a join / sort / grouping key that cannot be read on some row, a planted
+	// RAISE, a built-in on an argument it rejects). Their outcome is ignored: a query returns what it returns
+	// whatever failed earlier in the process
+	Poison []int `json:"poison,omitempty"`
+}
+
+var poisonDoc = map[string]any{
+	"pa": []any{map[string]any{"k": 1.0, "g": "u", "tags": []any{"a"}, "m": map[string]any{"rev": 1.0}}, map[string]any{"k": 2.0, "g": "u", "tags": []any{}, "m": 7.0}, map[string]any{"k": 3.0, "g": "v", "tags": []any{"b", "c"}, "m": map[string]any{"rev": 2.0}}},
+	"pb": []any{map[string]any{"k": 1.0, "tag": "a", "rev": 1.0}, map[string]any{"k": 3.0, "tag": "b", "rev": 2.0}},
+}
+
+var poisonSQL = []string{
+	"SELECT * FROM pa x JOIN pb y ON x.`tags[0]` = y.tag",
+	"SELECT * FROM pb y JOIN pa x ON y.tag = x.`tags[0]`",
+	"SELECT * FROM pa x JOIN pb y ON x.k = y.k AND x.`tags[0]` = y.tag",
+	"SELECT * FROM pa x JOIN pb y ON x.k = y.k AND x.`m.rev` = y.rev",
+	"SELECT * FROM pa x LEFT HASH_JOIN pb y ON x.k = y.k AND x.`m.rev` = y.rev",
+	"SELECT * FROM pa x LEFT HASH_JOIN pb y ON x.`tags[0]` = y.tag",
+	"SELECT * FROM pa x PARALLEL JOIN pb y ON x.`tags[1]` = y.tag",
+	"SELECT * FROM pa x RIGHT JOIN pb y ON x.`k.z` = y.k",
+	"SELECT * FROM pa x JOIN pb y ON x.k = y.k AND RAISE('stop')",
+	"SELECT * FROM pa ORDER BY `tags[0]`",
+	"SELECT * FROM pa ORDER BY g, `m.rev` DESC",
+	"SELECT * FROM pa ORDER BY k DESC, `tags[1]`",
+	"SELECT DISTINCT `tags[0]` AS f FROM pa",
+	"SELECT k, HASH(tags, 'md5') AS h, ENCODE(m, 'hex') AS e FROM pa",
+	"SELECT g, SUM(m) AS s FROM pa GROUP BY g",
+	"SELECT g, COUNT(*) AS n FROM pa GROUP BY g HAVING RAISE_WHEN(n > 1, 'late') IS NULL",
+	"SELECT k FROM `pa[7]`",
+	"SELECT (SELECT k FROM `<-pb[9]`) AS s FROM pa",
+	"SELECT k FROM pa WHERE RAISE_WHEN(k > 1, 'late') IS NULL",
+	"SELECT k FROM pa WHERE k IN (SELECT `tags[0]` FROM `<-pa`)",
+	"SELECT k FROM pa UNION SELECT `m.rev` FROM pa",
+	"SELECT k, `tags[0]` AS f FROM pa LIMIT 2 OFFSET 1",
+}
+
+func runPoison(idx []int) {
+	for _, i := range idx {
+		if i >= 0 && i < len(poisonSQL) {
+			Run(val.CopyMap(poisonDoc), poisonSQL[i], Opts{})
+		}
+	}
 }
 
 func genEnvelope(t *rapid.T, label string) Envelope {
@@ -239,6 +282,9 @@ func genEnvelope(t *rapid.T, label string) Envelope {
 	if rapid.Bool().Draw(t, label+".side") {
 		sb := rapid.IntRange(1, 15).Draw(t, label+".sidebits")
 		e.Side = Opts{Unreported: sb&1 != 0, Callback: sb&2 != 0, Vars: sb&4 != 0, Consts: sb&8 != 0}
+	}
+	if rapid.Bool().Draw(t, label+".poison") {
+		e.Poison = rapid.SliceOfN(rapid.IntRange(0, len(poisonSQL)-1), 1, 3).Draw(t, label+".poisoned")
 	}
 	return e
 }
@@ -252,6 +298,9 @@ func (e Envelope) Labels() []string {
 	}
 	if e.Side != (Opts{}) {
 		l = append(l, "envelope:side-channel-options")
+	}
+	if len(e.Poison) > 0 {
+		l = append(l, "envelope:after-failing-statements")
 	}
 	sort.Strings(l)
 	return l
@@ -300,6 +349,7 @@ func (e Envelope) Exec(doc map[string]any, sql string) Out {
 		// what a text returns depends on the document of the call at hand only: the outcome of this run is ignored
 		Run(priorDoc(doc), sql, o)
 	}
+	runPoison(e.Poison)
 	var out Out
 	if e.Again {
 		p := Build(doc, sql, o)
